@@ -38,9 +38,12 @@ fn plan(tier: Tier) -> Vec<Unit> {
             v
         }
         Tier::Thorough => {
-            let mut v = crate::util::split_budget_param("integers", (2 * n + 1) as u64, 3, n);
-            v.extend(crate::util::split_budget_param("random", 50_000, 100, n));
-            v.extend(crate::util::split_budget_param("pairs", 4_000, 40, n));
+            // cost grows with |x| (about 0.3 s per call near |x| = 1000) and with the digit count of x:
+            // every integer to +-1000, 12 000 seeded arguments of which one in five goes beyond |x| = 120
+            let mut v = crate::util::split_budget_param("integers", (2 * n + 1) as u64, 2, n);
+            v.extend(crate::util::split_budget_param("random", 9_600, 20, 120));
+            v.extend(crate::util::split_budget_param("random", 2_400, 8, n));
+            v.extend(crate::util::split_budget_param("pairs", 1_200, 10, n));
             v
         }
         Tier::Miri => crate::util::split_budget_param("integers", 3, 3, n),
@@ -80,9 +83,11 @@ pub fn gen_arg(r: &mut Rng, n: i64) -> Dec {
         }
         4 | 5 => {
             // +- k ln10 +- eps
-            let kmax = (n as f64 / 2.302585093) as i64;
+            // (cost grows with digits(x) * |x|^2: the crossing family stops at |x| = 300 and carries 125 digits)
+            let kmax = (n.min(300) as f64 / 2.302585093) as i64;
             let k = r.range(1, kmax.max(1));
             let l = ln10_dec();
+            let l = Dec::new(&l.n / pow10((l.s - 124) as u64), 124);
             let mut x = Dec::new(&l.n * k, l.s);
             let eps = Dec::new(BigInt::from(r.range(-50, 50)), r.range(90, 140));
             x = model::add(&x, &eps);
